@@ -46,6 +46,12 @@ def make(kind, n, base_id, left_kind=None):
         return [1.0, 2.0, 3.0][:dim]
     if kind == "BadArr":
         return np.zeros((5, 7))
+    if kind == "PtsMat":
+        dim = 2 if left_kind in ("SO2", "SE2", "Twist2") else 3
+        return np.arange(1.0, 1.0 + dim * 4).reshape(dim, 4)
+    if kind == "SelfMat":
+        n_ = {"SO2": 2, "SE2": 3, "SO3": 3, "SE3": 4}.get(left_kind, 3)
+        return np.eye(n_) * 2.0 + 0.5
     raise MachineryError("kind " + kind)
 
 
@@ -106,6 +112,10 @@ def judge_cell(j, e, got):
     feat = "%s;len(%d,%d)" % (R["c"], L["n"], R["n"])
     detail = {"op": op, "l": L, "r": R, "documented": doc, "got": got}
     if doc["k"] == "unspec":
+        # even where the documentation decides nothing else: an arithmetic operator never returns None
+        if got["k"] == "none" and op in ("*", "/", "+", "-", "**", "@"):
+            j.fail("%s|%s|%s|returned-None" % (PID, site, feat), detail, case_id=cid)
+            return
         j.skip("cell not specified by the documentation / C08")
         j.count("unspecified_cells_executed")
         return
